@@ -886,6 +886,16 @@ class Evaluator:
         return Opq('cmp', op, d)
 
     def compare(s, op, a, b):
+        if isinstance(a, Cond) or isinstance(b, Cond):
+            # distributing a comparison over two decision trees multiplies their sizes: charged to the evaluation budget, and past a size limit
+            # the comparison stays an uninterpreted test (UNKNOWN downstream, never a verdict)
+            s._steps += 8
+            def leaves_(x_, cap_=400):
+                if not isinstance(x_, Cond) or cap_ <= 0: return 1
+                n_ = leaves_(x_.a, cap_ - 1)
+                return n_ + leaves_(x_.b, cap_ - n_)
+            if s._steps > s.step_budget or (isinstance(a, Cond) and isinstance(b, Cond) and leaves_(a) * leaves_(b) > 4096):
+                return Opq('?', 'comparison of two large conditional values')
         if isinstance(a, Cond): return s.mkcond(a.g, s.compare(op, a.a, b), s.compare(op, a.b, b))
         if isinstance(b, Cond): return s.mkcond(b.g, s.compare(op, a, b.a), s.compare(op, a, b.b))
         if isinstance(op, (ast.Eq, ast.NotEq, ast.Is, ast.IsNot)) and (s._enum_member(a) or s._enum_member(b)):
